@@ -136,8 +136,15 @@ def make_system(rng: PlanRng):
     bv = sig(rng.uniform(0.05, 0.6, n_rec)) if base == "v" else 0.0
     lb = sig(rng.uniform(0.05, 0.3, n_src)) if rng.coin(0.25) else None
     ub = sig(rng.uniform(1.0, 6.0, n_src)) if rng.coin(0.9) else None
+    pinned = None
+    if ub is not None and n_src > n_rec and rng.coin(0.2):
+        # one source pinned to a positive constant (an always-on background light):
+        # lb[j] == ub[j] > 0 is an unusual but legal bounded system
+        pinned = rng.integers(0, n_src - 1)
+        lb = np.zeros(n_src) if lb is None else np.array(lb, copy=True)
+        lb[pinned] = ub[pinned] = float(sig(rng.uniform(0.3, 2.0)))
     return {"F": F, "S": S, "K": Kv, "baseline": bv, "lb": lb, "ub": ub,
-            "n_rec": n_rec, "n_src": n_src}
+            "n_rec": n_rec, "n_src": n_src, "pinned": pinned}
 
 
 # ----------------------------------------------------------------------------
@@ -254,6 +261,8 @@ def generate(rs, mode, tier, index):
                 val = sig(rng.uniform(0.05, 0.6, sysd["n_rec"]))
             elif kind == "ub":
                 val = sig(rng.uniform(1.0, 6.0, sysd["n_src"]))
+                if sysd.get("pinned") is not None:
+                    val[sysd["pinned"]] = sysd["lb"][sysd["pinned"]]     # stays pinned
             else:
                 val = sig(rng.uniform(0.3, 1.0, sysd["n_src"]))
             ops.append({"mut": kind, "value": val})
